@@ -18,7 +18,7 @@ from ..core import Stats, Violation
 
 ALPHA_SPEC = {
     "doc": {"content": "a*"},
-    "a": {"group": "g blk"},
+    "a": {"group": "g blk", "attrs": {"id": {"default": None}}},     # generatable: its only attribute defaults to None
     "b": {"group": "g blk", "content": "a*"},
     "c": {"group": "blk", "attrs": {"opt": {"default": 0}, "req": {}}},          # not generatable (the required attribute is not the first)
     "text": {"group": "inl"},
